@@ -670,6 +670,14 @@ class in_dir:
             os.chdir("/")
 
 
+def file_id(ids, x):
+    """id of a yielded file; a path spelled differently (relative, '/./', '//') names the same file"""
+    key = os.fspath(x)
+    if key in ids:
+        return ids[key]
+    return ids[os.path.normpath(os.path.abspath(key))]
+
+
 def make_fileset(root, tpl, time_cov=None, fs=None, spelling="abs", **kw):
     from typhon.files import FileSet
     path = tpl.text() if fs is not None else spelled_path(root, tpl, spelling)
